@@ -13,17 +13,21 @@ def wireRule (r : Rule) : Rule :=
 
 def Index.mapRules (idx : Index) (f : Rule → Rule) : Index := idx.map (fun (k, b) => (k, b.map f))
 
-/-- `serialize_raw` followed by `Engine::deserialize` on the same engine: the seven serialized lists
+/-- `Engine::deserialize` of the bytes another engine (`producer`) serialized: the seven serialized lists
     and `tagged_filters_all` come back rule by rule, the removeparam list is not part of the format,
     the enabled tags are re-applied (`use_tags(current_tags)`) -/
-def Blocker.reload (b : Blocker) : Blocker :=
+def Blocker.loadFrom (b : Blocker) (producer : Blocker) : Blocker :=
+  let b0 := producer
   let b' : Blocker :=
-    { csp := b.csp.mapRules wireRule, exceptions := b.exceptions.mapRules wireRule,
-      importants := b.importants.mapRules wireRule, redirects := b.redirects.mapRules wireRule,
-      removeparam := [], filtersTagged := b.filtersTagged.mapRules wireRule,
-      filters := b.filters.mapRules wireRule, genericHide := b.genericHide.mapRules wireRule,
-      tagsEnabled := [], taggedAll := b.taggedAll.map wireRule, optimize := b.optimize }
+    { csp := b0.csp.mapRules wireRule, exceptions := b0.exceptions.mapRules wireRule,
+      importants := b0.importants.mapRules wireRule, redirects := b0.redirects.mapRules wireRule,
+      removeparam := [], filtersTagged := b0.filtersTagged.mapRules wireRule,
+      filters := b0.filters.mapRules wireRule, genericHide := b0.genericHide.mapRules wireRule,
+      tagsEnabled := [], taggedAll := b0.taggedAll.map wireRule, optimize := b0.optimize }
   b'.useTags b.tagsEnabled
+
+/-- `serialize_raw` + `deserialize` on the same engine -/
+def Blocker.reload (b : Blocker) : Blocker := b.loadFrom b
 
 inductive HOp where
   | useTags (t : List Str)
@@ -32,6 +36,8 @@ inductive HOp where
   | optimize
   | add (r : Rule)
   | reload
+  /-- load the serialization of an engine built freshly from the same rules with the tag set `t` -/
+  | loadFresh (t : List Str)
 deriving Repr
 
 structure HState where
@@ -51,6 +57,7 @@ def hstep (s : HState) : HOp → HState
     let (b', ok) := s.b.addFilter r
     { b := b', rules := if ok then s.rules ++ [r] else s.rules }
   | .reload => { s with b := s.b.reload }
+  | .loadFresh t => { s with b := s.b.loadFrom ((Blocker.new s.rules s.b.optimize).useTags t) }
 
 def hrun (s : HState) (ops : List HOp) : HState := ops.foldl hstep s
 
